@@ -280,6 +280,7 @@ def provenance_and_before_start(ck, ctx):
             okd = any(c[1].endswith("Path::parent") for c in calls_in(e)) and any(c[1] == "graph::File::path" for c in calls_in(e)) and RL.try_of_call(ctx, cb, bb) is not None
     ck.ob("before-start", "create_parent_dirs", okd, "create_parent_dirs creates file(out).path().parent() for its ids and propagates errors", span=cb.loc, fn=cb.nname)
     dirs_complete(ck, ctx, cb)
+    C.loops_complete(ck, ctx, "before-start", [("work::Work::create_parent_dirs", "std::fs::create_dir_all", "the step's outputs")])
 
 
 EQ_ONLY = ("as std::cmp::PartialEq>::eq", "std::cmp::impls::eq")
@@ -393,12 +394,24 @@ def print_once(ck, ctx):
         ck.ob("print-once", "fancy-forwards", ok, "the fancy Progress impl forwards task_finished to FancyState under the lock", span=fb.loc, fn=fb.nname)
 
 
+def fancy_console(ck, ctx):
+    from . import fancy as FY
+    FY.forward(ck, ctx)
+    FY.tasks(ck, ctx)
+    FY.flush(ck, ctx)
+    FY.thread(ck, ctx)
+    FY.shutdown(ck, ctx)
+    FY.finished(ck, ctx)
+    FY.dumb_finished(ck, ctx)
+
+
 def run(ck, ctx):
     recipe(ck, ctx)
     cloexec(ck, ctx)
     read_then_wait(ck, ctx)
     provenance_and_before_start(ck, ctx)
     print_once(ck, ctx)
+    fancy_console(ck, ctx)
     RL.termination_ctors(ck, ctx, "status")
     from . import C19 as R19
     R19.update_each_iteration(ck, ctx)
